@@ -35,6 +35,13 @@ def run(ctx):
         # two harness processes at a time: oversubscription of the 16 cores by the 64-thread scenarios is intended
         with ThreadPoolExecutor(max_workers=2) as ex:
             outs = list(ex.map(lambda sc: vlib.run_lines(exe, [sc[1]], timeout=3600)[0], scen))
+        # history across key sets: the outputs under the key set of the spec do not depend on whether this process and thread used another
+        # key set (other dimensions) before
+        hh = [vlib.run_lines(exe, ['refhash %s %d %d' % (spec, ctx.seed + 21, pre)], timeout=3600)[0] for pre in (0, 1)]
+        ctx.count((be, bu, 'refhash'))
+        if hh[0].startswith('CRASH') or hh[1].startswith('CRASH') or hh[0].strip() != hh[1].strip():
+            ctx.report('nondeterministic-keyset-history', '%s/%s: 16 gate evaluations under the 128-bit key set give %s when it is the first key set of the process and %s when the thread generated and used the 80-bit key set before: the result depends on which key sets were used earlier' % (be, bu, hh[0][:40], hh[1][:40]),
+                       {'case': 'refhash %s %d 1' % (spec, ctx.seed + 21), 'scenario': 'refhash', 'backend': be, 'build': bu})
         for (name, line), o in zip(scen, outs):
             ctx.count((be, bu, name))
             if o.startswith('CRASH') or not o.strip():
